@@ -48,6 +48,7 @@ type Op struct {
 	// block
 	Dt   int    `json:"dt,omitempty"`
 	Perm uint64 `json:"perm,omitempty"`
+	Inject string `json:"inject,omitempty"` // mode B: "<call index>:<1 before|2 after>" failing one downstream call in this block
 	// admin (orbiter, FTF, CCTP, warp) and impostor
 	Msg    string   `json:"msg,omitempty"`
 	Proto  string   `json:"proto,omitempty"`
@@ -147,6 +148,8 @@ func (s *Sim) Exec(op Op) {
 		s.execTimeout(op)
 	case "block":
 		s.execBlock(op)
+	case "mode":
+		// marker at the head of a trace (which node mode the run uses); handled when the world is built
 	case "restart":
 		s.flushBlockIfPending()
 		s.N.Restart()
